@@ -296,6 +296,26 @@ func caseResetBlock(q *x) {
 	v := randValue(q, abiref.ResetBlock)
 	checkFixed(q, codec, v)
 
+	// the GUID byte string as the head of a buffer with dirty spare capacity
+	if abiref.ResetBlock.Fits(v) {
+		gg := v.G["guid"]
+		mk := func(guid []byte) ([]byte, error) {
+			out := bytes.Repeat([]byte{canary}, abiref.ResetBlock.Size)
+			var e error
+			if !q.must(entryPut, func() {
+				e = abi.PutSevEsResetBlock(out, &opb.SevEsResetBlock{Addr: uint32(v.U["addr"]), Size: uint32(v.U["size"]), Guid: guid})
+			}) {
+				return nil, fmt.Errorf("panic")
+			}
+			return out, e
+		}
+		tight, e1 := mk(gg[:16:16])
+		var recs []dirtyRec
+		got, e2 := mk(dirty(gg[:], &recs))
+		if e1 == nil {
+			q.judgeSpare(entryPut, "SevEsResetBlock", tight, got, e2, recs)
+		}
+	}
 	// out-of-range: Size does not fit 16 bits
 	big := uint32(0x10000)
 	switch q.r.IntN(4) {
